@@ -6,6 +6,7 @@
 #include "mcsched/mcsched.h"
 
 #include "rkcommon/tasking/AsyncLoop.h"
+#include "rkcommon/tasking/schedule.h"
 
 #include <semaphore.h>
 #include <atomic>
@@ -81,6 +82,17 @@ static void run_script(const char *script, AsyncLoop::LaunchMethod method)
     m->allowed.store(0);
   }
   mc_event("destroyed");
+#ifdef RKCOMMON_TASKING_INTERNAL
+  if (method == AsyncLoop::TASK) {
+    // "destroy always terminates" for a TASK-launched loop means its task ends and gives the (single) worker back:
+    // a task scheduled now must run; if the dead loop still occupies the worker the controller blocks here for ever
+    sem_t *probe = new sem_t;
+    sem_init(probe, 0, 0);
+    rkcommon::tasking::schedule([probe]() { sem_post(probe); });
+    sem_wait(probe);
+    mc_event("worker-free");
+  }
+#endif
   // give a wrongly surviving loop the chance to show itself
   for (int i = 0; i < 3; i++)
     mc_yield();
